@@ -396,6 +396,8 @@ def viab_tol(scale):
 def deep_snap(obj, depth=0):
     """bit-exact, order-preserving snapshot of EVERY attribute (enumerated by introspection, not by a hand-written list)"""
     if isinstance(obj, np.ndarray):
+        if obj.dtype == object:      # (bytes of an object array are pointers: compare the elements)
+            return ("nd-obj", obj.shape, tuple(deep_snap(x, depth) for x in obj.reshape(-1).tolist()))
         return ("nd", obj.dtype.str, obj.shape, obj.tobytes())
     if isinstance(obj, (tuple, list)):
         return (type(obj).__name__,) + tuple(deep_snap(x, depth) for x in obj)
@@ -442,6 +444,7 @@ class Runner:
         self.kept = []         # (result array, its values when returned, method): re-read after all later calls
         self.tmp_id_reuse = None
         self.instalments = False
+        self.unsorted_prediction = False
         self.clip = set()
 
     def recheck_kept(self):
@@ -623,7 +626,66 @@ def tol_for(what, scale):
     return 0.0
 
 
+def quick_results(case):
+    """the five helpers and the three `theta.predict_*` on the whole screen of a case, as bytes / error class (fresh objects)"""
+    from batchie.core import ThetaHolder
+    from batchie.models import main as mm
+    model = case["model"] if case.get("kind") == "bigholder" else case["kind"]
+    thetas = [theta_from_case(model, c) for c in case["thetas"]]
+    base = build_screen(case["raw"])
+    holder = ThetaHolder(n_thetas=case.get("declared", len(thetas)))
+    holder.thetas = list(thetas[: case.get("held", len(thetas))])
+    out = {}
+    calls = [("predict_mean_all", lambda: mm.predict_mean_all(base, holder)), ("predict_viability_all", lambda: mm.predict_viability_all(base, holder)),
+             ("predict_variance_all", lambda: mm.predict_variance_all(base, holder)), ("predict_mean_avg", lambda: mm.predict_mean_avg(base, holder)),
+             ("predict_viability_avg", lambda: mm.predict_viability_avg(base, holder))]
+    for k, t in enumerate(thetas[:3]):
+        for what in ("mean", "viab", "var"):
+            calls.append(("theta%d.%s" % (k, METHODS[what]), (lambda t=t, what=what: getattr(t, METHODS[what])(base))))
+    for name, f in calls:
+        try:
+            with np.errstate(all="ignore"):
+                a = np.array(f(), dtype=float)
+            out[name] = (a.shape, a.tobytes())
+        except Exception as e:  # noqa
+            out[name] = err_tok(e)
+    out["screen"] = snap_screen(base)
+    out["thetas"] = [deep_snap(t) for t in thetas]
+    return out
+
+
+def with_verbose(case, res, body):
+    """item 19: a case marked `verbose` runs entirely under `vlib.common.verbose_logging()` (logger `batchie` at DEBUG with a formatting
+    sink = what -v/--verbose sets), with the same oracles; in addition every helper / method result on the whole screen must be
+    bit-identical to the run WITHOUT verbose logging on the same input, and so must the inputs afterwards"""
+    if not case.get("verbose"):
+        return body()
+    quiet = quick_results(case)
+    with common.verbose_logging():
+        out = body()
+        loud = quick_results(case)
+    for k in quiet:
+        if quiet[k] != loud[k]:
+            if k in ("screen", "thetas"):
+                res.fail("the %s differ(s) after the calls under verbose (DEBUG) logging" % k, case, "changed", "as without verbose logging",
+                         signature="C09:verbose-logging")
+            elif isinstance(quiet[k], str) or isinstance(loud[k], str):
+                res.fail("%s succeeds / fails differently under verbose (DEBUG) logging" % k, case, str(loud[k])[:100], str(quiet[k])[:100],
+                         signature="C09:verbose-logging")
+            else:
+                a = np.frombuffer(loud[k][1], dtype=float)[:8].tolist()
+                b = np.frombuffer(quiet[k][1], dtype=float)[:8].tolist()
+                res.fail("%s returns another result under verbose (DEBUG) logging than without it" % k, case, {"verbose": a}, {"default": b},
+                         signature="C09:verbose-logging")
+            break
+    return out
+
+
 def run_case(case, res, lines):
+    return with_verbose(case, res, lambda: _run_case(case, res, lines))
+
+
+def _run_case(case, res, lines):
     """execute ONE self-contained case on the real code: oracles (+ queue tie lines)"""
     from batchie.core import ThetaHolder
     from batchie.models import main as mm
@@ -698,6 +760,7 @@ def run_case(case, res, lines):
         R.tie("c09.%s %s %s %s" % (kind, what, theta_tok(kind, th), screen_toks(base)), out, scales, what, "whole")
 
     ok_whole = {w: v for w, v in whole.items() if not isinstance(v, str)}
+    R.unsorted_prediction = any(v != sorted(v) for w, v in ok_whole.items() if w != "var")
 
     # ---- subsets, nested subsets, plates: entries of the whole, exactly -------------------------
     def same(a, b):
@@ -985,6 +1048,94 @@ def run_gcz_case(case, res, lines):
             lines.append(("c09.gcz2 %s %s" % (mat_tok(arr), tt), impl, None, "bits", "gcz2", True, case))
 
 
+HOLDER_SIZES = [15, 16, 17, 20, 31, 32, 33, 40, 65]     # straddling the usual blocking factors 16 / 32 / 64 (and > 8)
+
+
+def gen_bigholder(rng, idx, size):
+    """a LARGE holder (samples that really differ) on a tiny screen: reductions over posterior samples done in blocks,
+    chunks or pairwise fashion change code path at these sizes"""
+    model = "sdc" if rng.random() < 0.6 else "sdci"
+    arity = 2 if model == "sdci" else rng.choice([1, 2, 2])
+    n_s, n_t = rng.randint(1, 3), rng.randint(1, 3)
+    raw = gen_raw(rng, arity, n_s, n_t, n_max=5)
+    while len(raw["snames"]) < 2:
+        raw = gen_raw(rng, arity, n_s, n_t, n_max=5)
+    d = rng.choice([1, 2])
+    thetas = [gen_theta_case(rng, model, n_s, n_t, "normal", d=d) for _ in range(size)]
+    n = len(raw["snames"])
+    mask = [rng.random() < 0.5 for _ in range(n)]
+    if not any(mask):
+        mask[rng.randrange(n)] = True
+    return {"kind": "bigholder", "model": model, "idx": idx, "size": size, "raw": raw, "thetas": thetas, "mask": mask,
+            "verbose": size in (16, 17, 33, 65)}
+
+
+def run_bigholder(case, res, lines):
+    return with_verbose(case, res, lambda: _run_bigholder(case, res, lines))
+
+
+def _run_bigholder(case, res, lines):
+    from batchie.core import ThetaHolder
+    from batchie.models import main as mm
+    model = case["model"]
+    thetas = [theta_from_case(model, c) for c in case["thetas"]]
+    L = len(thetas)
+    base = build_screen(case["raw"])
+    n = base.size
+    holder = ThetaHolder(n_thetas=L)
+    holder.thetas = list(thetas)
+    sel = np.array(case["mask"], dtype=bool)
+    idx_sel = np.where(sel)[0]
+    sids, tids = np.asarray(base.sample_ids), np.asarray(base.treatment_ids)
+
+    def fail(what, observed, required, sig):
+        res.fail(what, case, observed, required, signature=sig)
+
+    for what, fn_all, fn_avg in (("mean", mm.predict_mean_all, mm.predict_mean_avg), ("viab", mm.predict_viability_all, mm.predict_viability_avg),
+                                 ("var", mm.predict_variance_all, None)):
+        try:
+            with np.errstate(all="ignore"):
+                per = [[float(x) for x in np.asarray(getattr(t, METHODS[what])(base), dtype=float)] for t in thetas]
+        except Exception as e:  # noqa
+            fail("a sample of a large holder does not predict a valid tiny screen", repr(e)[:200], "predictions", "C09:big-holder")
+            return
+        if any(math.isnan(x) for p in per for x in p):
+            continue
+        scales = None
+        if what != "var":
+            scales = [max(ref_mean(model, t, int(sids[i]), [int(x) for x in tids[i]])[1] for t in thetas) for i in range(n)]
+        for view_name, view, idx in (("whole screen", base, np.arange(n)), ("subset", base.subset(sel), idx_sel)):
+            try:
+                with np.errstate(all="ignore"):
+                    allp = np.asarray(fn_all(view, holder), dtype=float)
+                    avg = None if fn_avg is None else [float(x) for x in fn_avg(view, holder)]
+            except Exception as e:  # noqa
+                fail("predict_%s_all/avg raises for a holder of %d samples" % (what, L), repr(e)[:200], "a result", "C09:big-holder")
+                break
+            want_rows = [[p[i] for i in idx] for p in per]
+            if allp.shape != (L, len(idx)) or any([fbits(x) for x in allp[k]] != [fbits(x) for x in want_rows[k]] for k in range(L)):
+                bad = next((k for k in range(min(L, allp.shape[0])) if [fbits(x) for x in allp[k]] != [fbits(x) for x in want_rows[k]]), None)
+                fail("row i of predict_%s_all is not sample i's prediction for a holder of %d samples (%s)" % (what, L, view_name),
+                     {"shape": list(allp.shape), "first_bad_row": bad}, {"shape": [L, len(idx)]}, "C09:stack-rows")
+            if avg is not None:
+                if len(avg) != len(idx):
+                    fail("predict_%s_avg has the wrong length for a holder of %d samples" % (what, L), len(avg), len(idx), "C09:avg-not-mean")
+                    continue
+                for j, i in enumerate(idx):
+                    col = [p[i] for p in per]
+                    want = fsum(col) / L
+                    tol = 1e-11 * fsum(abs(x) for x in col) / L + 1e-300
+                    if not close(avg[j], want, tol):
+                        fail("predict_%s_avg is not the mean over the %d samples of the holder (%s)" % (what, L, view_name),
+                             {"experiment": int(i), "got": avg[j], "first_values": col[:4]}, want, "C09:avg-not-mean")
+                        break
+            if lines is not None and view is base:
+                hl = "c09.hold %s %%s %s %d %s %s" % (model, what, L, "/".join(theta_tok(model, t) for t in thetas), screen_toks(base))
+                lines.append((hl % "all", [[float(x) for x in r] for r in allp], scales, what, "bigholder.all", True, case))
+                if avg is not None:
+                    lines.append((hl % "avg", avg, scales, what, "bigholder.avg", False, case))
+
+
 def gen_case(rng, idx):
     kind = "sdc" if rng.random() < 0.6 else "sdci"
     n_s = rng.randint(1, 4)
@@ -1033,6 +1184,7 @@ def gen_case(rng, idx):
             chosen = set(rng.sample(range(n), k))
             tmp_masks.append([i in chosen for i in range(n)])
     return {"kind": kind, "idx": idx, "raw": raw, "thetas": thetas, "held": held, "declared": declared, "tmp_masks": tmp_masks,
+            "verbose": (idx % 6 == 0) or bool(raw.get("wide")),
             "mask": [rng.random() < 0.5 for _ in range(n)], "mask2": [rng.random() < 0.6 for _ in range(n)], "perm": perm,
             "short_theta": short, "dropped_key": dropped}
 
@@ -1086,6 +1238,15 @@ def _run(ctx, res):
         run_gcz(ctx.subrng("gcz", i), res, lines)
         res.evaluations += 1
         res.count("gather")
+    for rnd in range(ctx.scale(1, 6, 3)):
+        for size in HOLDER_SIZES:
+            case = gen_bigholder(ctx.subrng("bigholder", rnd, size), rnd * 1000 + size, size)
+            run_bigholder(case, res, lines)
+            res.evaluations += 1
+            res.count("class.size.holder_%d" % size)
+            if case["verbose"]:
+                res.count("class.verbose-logging")
+            res.count("class.size.holder_15_to_65.%s" % case["model"])
     for i in range(n_cases):
         case = gen_case(ctx.subrng("case", i), i)
         R = run_case(case, res, lines)
@@ -1101,6 +1262,10 @@ def _run(ctx, res):
         if case["short_theta"]:
             res.count("theta.too_small")
         res.count("theta.layout.%s" % case["thetas"][0].get("layout", "c"))
+        if case["verbose"]:
+            res.count("class.verbose-logging")
+            if R.unsorted_prediction:
+                res.count("class.verbose-logging.predictions_not_ascending")
         for kk, aa, side in R.clip:
             res.count("class.boundary.clip.%s_arity%d.%s" % (kk, aa, side))
         if R.instalments:
@@ -1188,5 +1353,7 @@ def replay(ctx, case, res):
     warnings.simplefilter("ignore")
     if case.get("kind") == "gcz":
         run_gcz_case(case, res, None)
+    elif case.get("kind") == "bigholder":
+        run_bigholder(case, res, None)
     else:
         run_case(case, res, None)
